@@ -259,7 +259,7 @@ func init() {
 		Rule:       "script = one of the six queues of a sessions.Session (QoS 1 out, QoS 2 in, QoS 2 out, SUBSCRIBE, UNSUBSCRIBE, PINGREQ) driven by one caller with 30-330 (a quarter: 1000-5000) operations, half of those letting up to 600 requests pile up (growth beyond the initial 16 slots while wrapped), or by 1-3 registering tasks plus one processor task with 6-35 operations (half of these start, after a sequential prefix judged by the list model, on a ring that is wrapped and full or nearly full, so that a concurrent registration makes it grow while acknowledgements are recorded); operations: register (small identifier pool for collisions and reuse, refused kinds, a tenth of the PUBLISH requests with a remaining length of 126-129, around the one-byte limit of its encoding; a third of the PUBLISH requests are built with the library's setters instead of being decoded from bytes), acknowledge (oldest first or any order, unknown identifiers, PUBREC before PUBCOMP, non-acknowledgement types), collect. The harness overwrites its source buffers after every call. Oracle: list model (register ignores an identifier in flight, unknown identifiers change nothing, collect returns the maximal head prefix that carries a terminal acknowledgement, request/ack bytes and completion token identical); porcupine for concurrent histories. Enumerated in every batch in addition: every operation sequence up to depth 5 (thorough: 7) over {register 1, register 2, PUBACK 1, PUBACK 2, collect} on the QoS 1 queue and up to depth 4 (thorough: 5) over {register 1/2, PUBREC 1/2, PUBCOMP 1/2, collect} on the QoS 2 queue. Non-trivial = more than two calls.",
 		Real:       []string{"sessions.Session.Init, sessions.Ackqueue (Wait, Ack, Acked, grow)", "message codecs used to copy requests and acknowledgements"},
 		Stub:       []string{"sync (simulator model)", "callers (scripted tasks)"},
-		Level:      "exploration", QuickRuns: 60000, ThoroughRuns: 2000000,
+		Level:      "exploration", QuickRuns: 40000, ThoroughRuns: 2000000,
 		Assumptions: []string{
 			"what Wait returns for an identifier that is already in flight is not asserted (the statement says the request is ignored, not how that is reported)",
 			"linearizability is checked for histories of at most 36 calls; porcupine time-outs count as inconclusive",
